@@ -218,9 +218,18 @@ def deduction_obligations(ck, rule_prefix=''):
             sub = table_of.get(u(recv)) if isinstance(recv, ast.Name) else (recv if isinstance(recv, ast.Subscript) and u(recv.value) == counter + '.counts' else None)
             if sub is not None:
                 loops.append((n, sub))
-    ck.need(len(loops) == 1, 'loop over a per-type table of the counter not found in ignore_warnings_and_count')
-    ck.ob('PROV-level', mod.loc(loops[0][0]), u(loops[0][1].slice) == level,
-          'deductions iterate the per-type table of exactly the `{}` level (found {})'.format(level, u(loops[0][1])), key='PROV-level|table')
+    if not loops:
+        # the deduction loop walks something else than `<counter>.counts[<level>]`: that is the finding (what can be deducted are the records of exactly
+        # that level; a table summed over several levels would let errors be waived)
+        cands = [n for n in fn.body if isinstance(n, ast.For) and any(isinstance(x, ast.AugAssign) and isinstance(x.op, ast.Sub) for x in ast.walk(n))]
+        ck.need(len(cands) == 1, 'loop over a per-type table of the counter not found in ignore_warnings_and_count')
+        ck.ob('PROV-level', mod.loc(cands[0]), False, 'deductions iterate the per-type table of exactly the `{}` level (found `{}`, which is not `{}.counts[{}]`)'.format(
+            level, u(cands[0].iter)[:60], counter, level), key='PROV-level|table')
+        loops = [(cands[0], None)]
+    else:
+        ck.need(len(loops) == 1, 'loop over a per-type table of the counter not found in ignore_warnings_and_count')
+        ck.ob('PROV-level', mod.loc(loops[0][0]), u(loops[0][1].slice) == level,
+              'deductions iterate the per-type table of exactly the `{}` level (found {})'.format(level, u(loops[0][1])), key='PROV-level|table')
     loops = [loops[0][0]]
     loop = loops[0]
     with_items = isinstance(loop.iter, ast.Call)
